@@ -183,6 +183,7 @@ func timeline(t *testing.T, r *rand.Rand, dir string, steps int) ([]Event, []str
 		}
 		e := &env{start: time.Now(), mode: "ok", scanDir: dir}
 		file := func() []byte { b, _ := os.ReadFile(d.Path()); return b }
+		kek0 := vault.SharedKEK().Uses() // the database is open: from here on nobody has any business with the key-encryption key (C05)
 		gen0 := d.WriteGen()
 		e.log(Event{"ev": "reset", "sha": sum(file())})
 		cl := s3.New(s3.Options{Region: "us-east-1", BaseEndpoint: aws.String("http://s3.test"), UsePathStyle: true,
@@ -266,6 +267,9 @@ func timeline(t *testing.T, r *rand.Rand, dir string, steps int) ([]Event, []str
 		evs = append(evs, e.events...)
 		notes = append(notes, e.notes...)
 		e.mu.Unlock()
+		if k := vault.SharedKEK().Uses() - kek0; k != 0 {
+			notes = append(notes, fmt.Sprintf("the key-encryption key was consulted %d time(s) while the server was running (writes, uploads), after the database had been opened", k))
+		}
 		// let everything go
 		cancel()
 		e.mu.Lock()
